@@ -12,6 +12,8 @@ ok=0; miss=0
 for d in seeded/*/; do
   id=$(basename $d)
   [ -n "$only" ] && [[ "$id" != $only* ]] && continue
+  # SEEDED_MATCH: extended regular expression on the directory name (e.g. '-r[345]-')
+  [ -n "${SEEDED_MATCH:-}" ] && ! [[ "$id" =~ $SEEDED_MATCH ]] && continue
   prop=$(python3 -c "import json;print(json.load(open('$d/meta.json'))['property'])")
   # some changes are, by their nature, only visible to another property's check
   alt=$(python3 -c "import json;print(' '.join(json.load(open('$d/meta.json')).get('checks',[])))")
